@@ -20,7 +20,7 @@ LEVEL_TEXT = (
     "from the input's conditioning; follow-up vectors must be transformed with the statistics recorded at fit time (recomputed "
     "independently here). The preloaded elementwise functions are compared with Python's math module value by value."
 )
-LEVEL_NOTE = "trusts: numpy/math; tolerance policy 200*eps*kappa (mean/std) and 1e3*eps*kappa^2*4^degree (orthonormality; cases where that exceeds 1e-4 skip the identity), kappa=max|x|/std(x) <= 1e5"
+LEVEL_NOTE = "trusts: numpy/math; tolerance policy 200*eps*kappa (mean/std) and max(1e3*eps*kappa^2*4^degree, 50*eps*cond(Vandermonde)) (orthonormality; cases where that exceeds 1e-4 skip the identity), kappa=max|x|/std(x) <= 1e5"
 RULE = (
     "random vectors x flags (center/scale/ddof, explicit numeric center/scale), poly degree 1..min(n-1,8) raw/orthonormal with "
     "NaN rows, replay on fresh vectors, path in {model_matrix, direct}; elementwise: 6 functions x random arguments. "
@@ -221,7 +221,7 @@ def gen_poly(rng: random.Random, tier: str) -> dict:
     inp = "array"
     if not nan_rows and rng.random() < 0.3:  # whole numbers held in a (small) integer dtype: powers are those of the numbers
         xi = [float(round(v)) for v in x]
-        if len(set(xi)) > degree and max(abs(v) for v in xi) <= 120:
+        if len(set(xi)) > degree and max(abs(v) for v in xi + [float(round(v)) for v in xn]) <= 120:
             x, xn, inp = xi, [float(round(v)) for v in xn], rng.choice(["int8", "int16", "int"])
         elif len(set(xi)) > degree and max(abs(v) for v in xi) < 2 ** 31:
             x, xn, inp = xi, [float(round(v)) for v in xn], "int"
@@ -267,7 +267,9 @@ def judge_poly(case) -> Outcome:
     P = a[ok_rows]
     # rounding in the three-term recurrence grows with the conditioning of the abscissa *and* geometrically with the degree
     # (measured on the unchanged code: 2e-9 at degree 7-8 on 10-25 points); beyond 1e-4 the identity no longer discriminates
-    tol = 1e3 * EPS * max(kappa, 1.0) ** 2 * 4.0 ** d + 1e-10
+    z0 = (xs - xs.mean()) / sd
+    condV = float(np.linalg.cond(np.vander(z0, d + 1, increasing=True)))  # clustered abscissae make a high degree ill-posed whatever kappa is
+    tol = max(1e3 * EPS * max(kappa, 1.0) ** 2 * 4.0 ** d, 50 * EPS * condV) + 1e-10
     if tol > 1e-4:
         out.see("orthonormality_skipped_ill_conditioned")
     else:
